@@ -355,8 +355,10 @@ func c10Gen(c *core.Ctx) {
 	for _, s := range prDedicated {
 		core.Do(c, c10Case{Src: s, Kind: "dedicated"}, c10Exec)
 	}
-	for _, s := range []string{"case x in a) ;;\nesac\n", "a && b || c\n", "a >| f >> g <& 3 >& 4 <> h <<- E\n\tx\n\tE\n", "((1)); $((2)) ${x:-y} ${#z} `c`\n", "f() { a; }\n", "a \\\nb 'c' \"d\" # e\n"} {
-		core.Do(c, c10Case{Src: s, Kind: "dedicated"}, c10Exec)
+	for _, s := range []string{"case x in a) ;;\nesac\n", "a && b || c\n", "a >| f >> g <& 3 >& 4 <> h <<- E\n\tx\n\tE\n", "((1)); $((2)) ${x:-y} ${#z} `c`\n", "f() { a; }\n", "a \\\nb 'c' \"d\" # e\n", "case x in a) echo a & ;; esac\n", "case x in\na)\n;;\nesac\n", "case x in (a) b & ;; c) ;; esac\n", "a & b && c || d | e\n", "a >> f 2>| g <<- E\n\tE\n"} {
+		for rep := 0; rep < 4; rep++ {
+			core.Do(c, c10Case{Src: s, Kind: "dedicated"}, c10Exec)
+		}
 	}
 	c01TokenStrings(c.Pick(2, 3), func(s string) {
 		core.Do(c, c10Case{Src: s, Kind: "token-string"}, c10Exec)
